@@ -36,6 +36,10 @@ Subscribe(s) == /\ s \notin Live /\ s \notin closedCh /\ s \notin unsubq
                 /\ UNCHANGED <<registered, streamq, latest, loop, todo, unsubq, closedCh>>
 Unsubscribe(s) == /\ s \in Live /\ s \notin unsubq /\ unsubq' = unsubq \cup {s}      \* context cancelled + id handed to the loop
                   /\ UNCHANGED <<registered, streamq, latest, subs, loop, todo, closedCh>>
+\* short-lived subscribers come and go - one unsubscribes while the next one subscribes - and are all gone afterwards:
+\* nothing the other subscribers can observe changes (the subscriber registry is shared by the callers of Subscribe and
+\* the loop: the code must keep it consistent under exactly this overlap)
+Churn == UNCHANGED <<registered, streamq, latest, subs, loop, todo, unsubq, closedCh>>
 \* the loop
 TakeStream == /\ loop = "idle" /\ streamq # <<>> /\ latest' = Head(streamq) /\ streamq' = Tail(streamq)
               /\ loop' = "dispatch" /\ todo' = Live /\ UNCHANGED <<registered, subs, unsubq, closedCh>>
@@ -51,6 +55,7 @@ EndDispatch == /\ loop = "dispatch" /\ todo = {} /\ loop' = "idle" /\ UNCHANGED 
 
 Env == \/ \E a \in Addrs : (Register(a) /\ hist' = Append(hist, O("reg", a))) \/ (Deregister(a) /\ hist' = Append(hist, O("dereg", a)))
        \/ \E s \in Subs : (Subscribe(s) /\ hist' = Append(hist, O("sub", s))) \/ (Unsubscribe(s) /\ hist' = Append(hist, O("unsub", s)))
+       \/ (Churn /\ (IF hist = <<>> THEN TRUE ELSE hist[Len(hist)].op # "churn") /\ hist' = Append(hist, O("churn", "")))
 Loop == (TakeStream \/ Tick \/ EndDispatch \/ \E s \in Subs : TakeUnsub(s) \/ SendTo(s)) /\ UNCHANGED hist
 Next == (Len(hist) < MaxOps /\ Env) \/ Loop
 L(A) == A /\ UNCHANGED hist
